@@ -18,7 +18,7 @@ EXPLANATION = ("real LocalBioFilter(...).valid(s, only_last) on a symbolic strin
 STUBS = []
 ASSUMPTIONS = ["'within the configured fraction' is read with the implementation's float products gc_range[i] * observed_length (computed by "
                "Python itself, compared exactly as rationals)", "motifs are non-empty strings over A,C,G,T"]
-BUDGET_S = {"quick": 900, "thorough": 7200}
+BUDGET_S = {"quick": 900, "thorough": 1500}
 ALPHA = "ACGTN\n"
 
 
